@@ -71,7 +71,7 @@ class Check:
         self.ok("ANCHOR", "anchor:%s" % role, str(found), site, nontrivial=False)
         return True
 
-    def only(self, substrings):
+    def only(self, substrings, _also=None):
         """A view of this check that keeps just the obligations whose key contains one of `substrings`
         (for a property that rests on part of another property's rule set); anchors that fail are kept,
         floors and everything else of the borrowed module (explanation, samples, extra) is dropped."""
@@ -89,7 +89,7 @@ class Check:
                 self.prop, self.tier, self.seed = outer.prop, outer.tier, outer.seed
 
             def _keep(self, key):
-                return any(x in key for x in substrings)
+                return any(x in key for x in substrings) and (_also is None or _also(key))
 
             def ok(self, rule, oid, detail="", site="", nontrivial=True):
                 if self._keep(oid):
@@ -117,7 +117,8 @@ class Check:
                 return None
 
             def only(self, subs):
-                return outer.only(subs)
+                # a borrowed module that borrows in turn: both filters apply
+                return outer.only(subs, _also=self._keep)
         return _View()
 
     def sample(self, s):
